@@ -35,8 +35,8 @@ func tl(n int) int {
 
 // overhead of SignatureInfo + SignatureValue (for the ESTIMATED size) per signer token, for the
 // steering shapes below (approximate on purpose: the generator sweeps a window around the target)
-var dataOverhead = map[string]int{"sha": 39, "hmac": 54, "ecc": 94, "rsa": 280, "t:72:60": 90, "t:300:200": 318, "t:253:252": 271}
-var intOverhead = map[string]int{"shaint": 62, "hmacint": 105, "eccint": 117, "rsaint": 303, "ecc": 94, "t:72:60": 90}
+var dataOverhead = map[string]int{"sha": 39, "hmac": 54, "ecc": 94, "rsa": 280, "t:72:60": 86, "t:300:200": 316, "t:253:252": 269}
+var intOverhead = map[string]int{"shaint": 62, "hmacint": 93, "eccint": 117, "rsaint": 303, "ecc": 94, "t:72:60": 86}
 
 // steered: a Data / Interest whose ESTIMATED value length sits at a TL-length boundary
 // (252..256, 65534..65538) so that a signature shorter than its estimate narrows the outer header
@@ -47,7 +47,21 @@ func steered(r *common.Rand, g *common.Gen, interest bool) string {
 	}
 	t := common.Pick(r, targets) + r.Range(-1, 1)
 	if !interest {
-		signer := common.Pick(r, []string{"ecc", "ecc", "ecc", "ecc", "sha", "hmac", "rsa", "t:72:60", "t:300:200", "t:253:252"})
+		signer := common.Pick(r, []string{"ecc", "ecc", "ecc", "ecc", "ecc", "sha", "hmac", "rsa", "t:72:60", "t:72:60", "t:300:200", "t:253:252"})
+		switch signer {
+		case "t:72:60": // 12 bytes shorter than estimated: the header narrows for estimates 253..264
+			if t < 1000 {
+				t = r.Range(253, 264)
+			} else {
+				t = r.Range(65536, 65547)
+			}
+		case "t:300:200": // 100 bytes (+2 of the length field) shorter
+			if t < 1000 {
+				t = r.Range(325, 354)
+			} else {
+				t = r.Range(65536, 65637)
+			}
+		}
 		o := dataOverhead[signer]
 		// name /8:61 (5) + MetaInfo (2) + content TL + n + overhead = t
 		n := t - 7 - o
@@ -58,7 +72,14 @@ func steered(r *common.Rand, g *common.Gen, interest bool) string {
 		g.Stat("steer-data")
 		return "mkd /8:61 - - - " + common.Hex(r.Bytes(n)) + " " + signer
 	}
-	signer := common.Pick(r, []string{"eccint", "eccint", "eccint", "ecc", "shaint", "hmacint", "rsaint", "t:72:60"})
+	signer := common.Pick(r, []string{"eccint", "eccint", "eccint", "ecc", "ecc", "shaint", "hmacint", "rsaint", "t:72:60", "t:72:60"})
+	if signer == "t:72:60" {
+		if t < 1000 {
+			t = r.Range(253, 264)
+		} else {
+			t = r.Range(65536, 65547)
+		}
+	}
 	o := intOverhead[signer]
 	// name /8:61 + digest (39) + parameters TL + n + overhead = t
 	n := t - 39 - o
@@ -78,10 +99,18 @@ func gen(g *common.Gen) {
 		g.Op("new")
 		sh := c03.Shape{Big: r.Chance(1, 10)}
 		var mk string
-		steer := i%3 == 2
-		if steer {
-			mk = steered(r, g, i%2 == 1)
-		} else {
+		// two light histories per normal one: a packet steered to a TL-length boundary of its ESTIMATED
+		// size, built, decoded (contiguous / own buffers / cuts) and validated — no bit flipping
+		for k := 0; k < 2; k++ {
+			smk := steered(r, g, (i+k)%2 == 1)
+			g.Op("%s", smk)
+			g.Op("val c")
+			g.Op("val own")
+			g.Op("val %s", c03.GenCuts(r, c03.EstSize(smk)))
+			g.Op("cmp")
+			g.Op("new")
+		}
+		{
 			for {
 				if i%2 == 0 {
 					mk = c03.GenMkd(r, sh, g, common.Pick(r, dataSigners))
